@@ -21,6 +21,8 @@ enum Task {
     Panic,
     Aborted,
     HandlerPanics,
+    SlowVal(u64),
+    SlowPanic,
 }
 struct Go(Task);
 
@@ -45,6 +47,14 @@ impl Message<Go> for A {
                 h
             }
             Task::HandlerPanics => panic!("scripted handler panic"),
+            Task::SlowVal(v) => tokio::spawn(async move {
+                tokio::time::sleep(std::time::Duration::from_millis(150)).await;
+                v
+            }),
+            Task::SlowPanic => tokio::spawn(async move {
+                tokio::time::sleep(std::time::Duration::from_millis(150)).await;
+                panic!("scripted slow task panic")
+            }),
         }
     }
 }
@@ -79,6 +89,24 @@ fn main() {
             println!("{} {}", name, show(res));
             let _ = r.kill();
             let _ = j.await;
+        }
+        // the ask succeeds and the actor ENDS (kill / stop) while the task is still running: the
+        // result is still the task's own output or join error - the actor's fate after the reply
+        // is not an input of ask_join
+        for (name, t, kill) in [("ok:val7", Task::SlowVal(7), true), ("ok:val7", Task::SlowVal(7), false),
+                                ("ok:panic", Task::SlowPanic, true)] {
+            let (r, j) = rsactor::spawn::<A>(());
+            let r2 = r.clone();
+            let asker = tokio::spawn(async move { r2.ask_join(Go(t)).await });
+            tokio::time::sleep(std::time::Duration::from_millis(30)).await;
+            if kill {
+                let _ = r.kill();
+            } else {
+                let _ = r.stop().await;
+            }
+            let _ = j.await;
+            let res = asker.await.unwrap();
+            println!("{} {}", name, show(res));
         }
         // the ask fails with Send: the actor has ended
         {
